@@ -409,6 +409,15 @@ end Machine
 
 /-! ### per-channel export groups -/
 
+theorem selectedPrecision_length {F : Type} [LT F] [DecidableLT F] (precs : List Int)
+    (α : List (List F)) : (selectedPrecision precs α).length = α.length := by
+  simp [selectedPrecision, selectedIdx]
+
+theorem selectedPrecision_congr {F : Type} [LT F] [DecidableLT F] (precs : List Int)
+    (α β : List (List F)) (h : α = β) : selectedPrecision precs α = selectedPrecision precs β := by
+  simp [h]
+
+
 theorem mem_firstSeen (p : Int) : ∀ l : List Int, p ∈ firstSeen l ↔ p ∈ l
   | [] => by simp [firstSeen]
   | q :: qs => by
